@@ -411,7 +411,7 @@ class Ssh2Server:
                 c.send(frame2(kexdh_reply(blob)), 'kexdh_reply')
             elif t == 34:  # GEX_REQUEST
                 mn, pf, mx = struct.unpack('>III', body[:12])
-                if hasattr(srv, 'gex_requests') and srv.phases.get(c.idx) != 'hostkey':
+                if hasattr(srv, 'gex_requests'):   # every request, also a host-key probe's (phase 'hostkey'): consumers filter by phase
                     srv.gex_requests.append((c.idx, ckex[0].decode() if ckex else '', mn, pf, mx))
                 ans = sp.get('gex', lambda a, b, d: None)(mn, pf, mx)
                 if ans is None or ans == 'close':
